@@ -1,5 +1,6 @@
 """C16 — clock-domain crossings are always caught (and nothing else is)."""
 from vlib import *
+from checks.c15c16_shrink import shrink as structural_shrink
 
 LEVEL = "proof"
 THEOREMS = ["root_is_merge_of_leaves", "expr_check_exact", "expr_no_launder", "explicit_inferred_alike",
@@ -39,21 +40,28 @@ WITNESSES = [
 ]
 
 
+def run_model_retry(domain, out_dir, dst="model.txt", tries=3):
+    for _ in range(tries):
+        rc, err = run_model(domain, out_dir, dst=dst)
+        if rc >= 0:
+            break
+    return rc, err
+
+
+def run_hx_retry(ctx, domain, args, out_dir=None, timeout=3600, tries=3):
+    """`run_hx`, repeated if the process was killed by a signal (the machine is shared: other jobs
+    occasionally `pkill hx`); a deterministic failure fails every time."""
+    for k in range(tries):
+        rc, out, d = run_hx(ctx, domain, args, out_dir=out_dir, timeout=timeout)
+        if rc >= 0 and rc != 143 and rc != 137:
+            return rc, out, d
+        ctx.log(f"hx {domain} was killed by a signal (rc={rc}); retry {k + 1}")
+    return rc, out, d
+
+
 def shrink_items(ctx, line, fails):
-    """Drop module items (`;`-separated) while the mismatch persists."""
-    op, env, items = line.split(" ")
-    parts = items.split(";")
-    changed = True
-    while changed and len(parts) > 1:
-        changed = False
-        for i in range(len(parts)):
-            cand = parts[:i] + parts[i + 1:]
-            l = f"{op} {env} {';'.join(cand)}"
-            if fails(l):
-                parts = cand
-                changed = True
-                break
-    return f"{op} {env} {';'.join(parts)}"
+    """Structural shrinking (items, statements, branches, sub-expressions) while the mismatch persists."""
+    return structural_shrink(line, fails, "cdc")
 
 
 def replay_lines(ctx, lines, tag):
@@ -61,10 +69,10 @@ def replay_lines(ctx, lines, tag):
     os.makedirs(d, exist_ok=True)
     with open(f"{d}/replay.txt", "w") as fh:
         fh.write("\n".join(lines) + "\n")
-    rc, out, _ = run_hx(ctx, "cdc", ["--replay", f"{d}/replay.txt"], out_dir=d, timeout=600)
+    rc, out, _ = run_hx_retry(ctx, "cdc", ["--replay", f"{d}/replay.txt"], out_dir=d, timeout=600)
     if rc != 0:
         return None
-    run_model("cdc", d)
+    run_model_retry("cdc", d)
     return d
 
 
@@ -119,12 +127,12 @@ def run(ctx):
                 ctx.notes.append(f"witness {key} no longer fails on the implementation")
     # 2. generated designs
     n = tier_n(ctx, 1500, 40000)
-    rc, out, d = run_hx(ctx, "cdc", ["--seed", ctx.seed, "--n", n], timeout=7200)
+    rc, out, d = run_hx_retry(ctx, "cdc", ["--seed", ctx.seed, "--n", n], timeout=7200)
     if rc != 0:
         ctx.violation(f"harness domain cdc crashed (rc={rc})", {"kind": "harness-crash", "log": out[-4000:]},
                       no_input=True, kind="model!=impl")
         return
-    mrc, err = run_model("cdc", d)
+    mrc, err = run_model_retry("cdc", d)
     if mrc != 0:
         ctx.log(f"vmodel cdc rc={mrc}: {err[-500:]}")
     nlines, mism = diff3(d)
@@ -141,8 +149,15 @@ def run(ctx):
     for o, r in zip(ops, imp):
         if o.startswith("d "):
             ctx.distinct((o, r))
-    for m in mism[:3]:
+    reported_designs = set()
+    for m in mism:
+        if len(reported_designs) >= 3:
+            break
         line = m["op"]
+        design = line.split(" ", 1)[1] if " " in line else line
+        if design in reported_designs:      # the `d` and the `f` line of one design
+            continue
+        reported_designs.add(design)
         try:
             small = shrink_items(ctx, line, lambda l: line_fails(ctx, l))
         except Exception as e:
